@@ -11,6 +11,7 @@
 import fcntl
 import glob
 import hashlib
+import itertools
 import json
 import os
 import re
@@ -176,22 +177,32 @@ def build_driver(name, flavour="plain", extra_src=(), cflags=(), ldflags=()):
     exe = os.path.join(outdir, "%s-%s-%s-%s" % (name, flavour, variant, h.hexdigest()[:12]))
     if os.path.exists(exe):
         os.utime(exe)
-    else:
-        for o in glob.glob(os.path.join(outdir, "%s-%s-%s-*" % (name, flavour, variant))):
-            try:
-                if time.time() - os.path.getmtime(o) > PRUNE_AGE:      # see build_pixman
-                    os.unlink(o)
-            except OSError:
-                pass
-        dflags = FLAVOURS[flavour][2]
-        cmd = ["gcc", "-O1", "-g", "-D" + GUARD, "-DHAVE_CONFIG_H", "-Wall", "-Wno-unused-function",
-               "-I" + os.path.join(HARNESS, "common")]
-        cmd += ["-I" + i for i in px["inc"]] + list(dflags) + list(cflags) + ["-o", exe + ".tmp"] + srcs
-        cmd += [px["lib"], "-lm", "-lpthread"] + list(ldflags)
-        p = sh(cmd, check=False)
-        if p.returncode != 0:
-            raise Infra("driver build failed: %s\n%s" % (name, p.stdout[-4000:]))
-        os.rename(exe + ".tmp", exe)
+        return exe, px
+    # several checks (or several runs of one check) may want the same driver at the same moment: build under a
+    # lock, into a private temporary name, and publish by an atomic rename
+    lock = open(exe + ".lock", "w")
+    fcntl.flock(lock, fcntl.LOCK_EX)
+    try:
+        if not os.path.exists(exe):
+            for o in glob.glob(os.path.join(outdir, "%s-%s-%s-*" % (name, flavour, variant))):
+                try:
+                    if time.time() - os.path.getmtime(o) > PRUNE_AGE:   # see build_pixman
+                        os.unlink(o)
+                except OSError:
+                    pass
+            dflags = FLAVOURS[flavour][2]
+            tmp = "%s.tmp%d" % (exe, os.getpid())
+            cmd = ["gcc", "-O1", "-g", "-D" + GUARD, "-DHAVE_CONFIG_H", "-Wall", "-Wno-unused-function",
+                   "-I" + os.path.join(HARNESS, "common")]
+            cmd += ["-I" + i for i in px["inc"]] + list(dflags) + list(cflags) + ["-o", tmp] + srcs
+            cmd += [px["lib"], "-lm", "-lpthread"] + list(ldflags)
+            p = sh(cmd, check=False)
+            if p.returncode != 0:
+                raise Infra("driver build failed: %s\n%s" % (name, p.stdout[-4000:]))
+            os.rename(tmp, exe)
+    finally:
+        fcntl.flock(lock, fcntl.LOCK_UN)
+        lock.close()
     return exe, px
 
 
@@ -244,12 +255,11 @@ def run_driver(cmd, trace, env=None, timeout=900, cwd=None):
 # ------------------------------------------------------------------------------------------
 # TLC
 
-_tlc_seq = [0]
+_tlc_seq = itertools.count(1)      # next() is atomic: validate_batches calls this from several threads
 
 
 def _metadir(tag):
-    _tlc_seq[0] += 1
-    d = os.path.join(BUILD, "tlc", "%s-%d-%d" % (tag, os.getpid(), _tlc_seq[0]))
+    d = os.path.join(BUILD, "tlc", "%s-%d-%d" % (tag, os.getpid(), next(_tlc_seq)))
     shutil.rmtree(d, ignore_errors=True)
     os.makedirs(d, exist_ok=True)
     return d
